@@ -40,7 +40,7 @@ def mlcl_arg(draw, n):
 
 @st.composite
 def fit_case(draw, classes=None):
-    s = draw(E.est_spec(classes=classes))
+    s = draw(E.est_spec(classes=classes, cuts_max=4 if classes == ["Douglas"] else 2, d_max=3 if classes == ["Douglas"] else 4))
     return {"spec": s, "mlcl": draw(mlcl_arg(s["n"])), "dseed": draw(gens.seeds)}
 
 
